@@ -7,7 +7,7 @@ cd /verif || exit 2
 make -s build >/dev/null 2>build.log || { cat build.log; exit 2; }
 if [ -n "$(git -C /repo status --porcelain --untracked-files=no)" ]; then echo "/repo has local modifications; refusing"; exit 2; fi
 base=$(mktemp /tmp/seedbase.XXXXXX)
-./bin/absnfs-lint -prop all -out /tmp/ev-seed -known /verif/known_findings.json -list 2>&1 | grep -E '^  (violated|undecided) ' | sed -E 's/\] .*/]/' | sort -u > "$base"
+./bin/absnfs-lint -prop all -out /tmp/ev-seed -known /verif/known_findings.json -list 2>&1 | grep -E '^  (violated|undecided) ' | sed -E 's/\] .*/]/; s/  +/ /g' | sort -u > "$base"
 seeds=("$@")
 if [ ${#seeds[@]} -eq 0 ]; then seeds=($(ls /verif/seeded)); fi
 for s in "${seeds[@]}"; do
@@ -16,12 +16,12 @@ for s in "${seeds[@]}"; do
   prop=$(python3 -c "import json;print(json.load(open('$d/meta.json'))['property'])")
   if ! git -C /repo apply "$d/patch.diff" 2>/dev/null; then
     if ! git -C /repo apply -3 "$d/patch.diff" >/dev/null 2>&1; then
-      echo "== $s ($prop): patch no longer applies"; git -C /repo checkout -- . ; git -C /repo reset -q; continue
+      echo "== $s ($prop): patch no longer applies"; git -C /repo reset -q; git -C /repo checkout -- . ; continue
     fi
     git -C /repo reset -q
   fi
   out=$(mktemp /tmp/seedout.XXXXXX)
-  ./bin/absnfs-lint -prop all -out /tmp/ev-seed -known /verif/known_findings.json -list 2>&1 | grep -E '^  (violated|undecided) |LOAD FAILURE|panic' | sed -E 's/\] .*/]/' | sort -u > "$out"
+  ./bin/absnfs-lint -prop all -out /tmp/ev-seed -known /verif/known_findings.json -list 2>&1 | grep -E '^  (violated|undecided) |LOAD FAILURE|panic' | sed -E 's/\] .*/]/; s/  +/ /g' | sort -u > "$out"
   git -C /repo checkout -- .
   new=$(comm -13 "$base" "$out")
   own=$(echo "$new" | grep -c " $prop/")
